@@ -963,7 +963,7 @@ def gen(repo):
     for f in formulas:
         s = specs[f["spec"]]
         f["lo"], f["hi"] = s["lo"], s["hi"]
-        if f["kind"] == "Component":
+        if f["kind"] in ("Component", "PassiveSkill"):       # PassiveSkill: the stat block get_passive adds to the character
             f["damage"] = is_damage_path(f["path"], stat_fields)
         elif f["kind"] == "SkillImprovement":
             f["damage"] = f["id"] in imp_target_field and is_damage_path([imp_target_field[f["id"]]], stat_fields)
